@@ -2931,7 +2931,7 @@ def transform_compressible(items, constants, labels):
         # the offset to an absolute address held in a constant is the exception:
         # it GROWS when earlier items shrink, so it cannot be decided early either
         imm = getattr(item, 'imm', None)
-        while isinstance(imm, (Hi, Lo)):
+        while isinstance(imm, (Hi, Lo, Signed32)):
             imm = imm.expr
         if isinstance(imm, Offset) and imm.reference in constants:
             position += item.size()
